@@ -175,22 +175,69 @@ end
 it names otherwise -/
 def admitsLabel (e : Expr) (l : Label) : Bool := dSel (closed e) (allowedBy e l) (names e l)
 
+/-- `e` is recursively closed: when it is embedded, the enclosing struct literal becomes
+recursively closed as well -/
+def recC : Expr → Bool
+  | .defn e => shape e == .st
+  | .close e => recC e
+  | .and a b => recC a || recC b
+  | .emb e rest => recC e || recC rest
+  | .own e rest => recC e || recC rest
+  | .field _ _ _ rest => recC rest
+  | .pat _ _ rest => recC rest
+  | .ell rest => recC rest
+  | _ => false
+
+/-- some EMBEDDED part of the literal is recursively closed (then the literal closes all
+its fields recursively, like a definition) -/
+def embRec : Expr → Bool
+  | .emb e rest => recC e || embRec rest
+  | .own _ rest => embRec rest
+  | .field _ _ _ rest => embRec rest
+  | .pat _ _ rest => embRec rest
+  | .ell rest => embRec rest
+  | .defn e => shape e == .st
+  | .close e => recC e
+  | .and a b => recC a || recC b
+  | _ => false
+
+def wrapDef (b : Bool) (e : Expr) : Expr := if b then .defn e else e
+
+mutual
 /-- everything `e` says about field `l`, as a schema again:
 values of fields named `l` (any marker) and of matching patterns are direct conjuncts,
-embeddings stay embeddings, definitions keep closing, `close` does not reach down -/
+embeddings stay embeddings, definitions keep closing (so does a literal that embeds a
+recursively closed struct), `close` does not reach down -/
 def sub (l : Label) : Expr → Expr
   | .top => .top
   | .bot => .bot
   | .sc _ => .bot
   | .nil => .top
-  | .field l' _ v rest => if l = l' then .own v (sub l rest) else sub l rest
-  | .pat p v rest => if p.matches l then .own v (sub l rest) else sub l rest
-  | .ell rest => sub l rest
-  | .emb e rest => .emb (sub l e) (sub l rest)
-  | .own e rest => .own (sub l e) (sub l rest)
+  | .field l' _ v rest =>
+    wrapDef (embRec rest) (if l = l' then .own v (subS l rest) else subS l rest)
+  | .pat p v rest =>
+    wrapDef (embRec rest) (if p.matches l then .own v (subS l rest) else subS l rest)
+  | .ell rest => wrapDef (embRec rest) (subS l rest)
+  | .emb e rest => wrapDef (recC e || embRec rest) (.emb (sub l e) (subS l rest))
+  | .own e rest => wrapDef (embRec rest) (.own (sub l e) (subS l rest))
   | .close e => sub l e
   | .defn e => .defn (sub l e)
   | .and a b => .and (sub l a) (sub l b)
+/-- projection of a literal under construction (no closing yet) -/
+def subS (l : Label) : Expr → Expr
+  | .top => .top
+  | .nil => .top
+  | .field l' _ v rest => if l = l' then .own v (subS l rest) else subS l rest
+  | .pat p v rest => if p.matches l then .own v (subS l rest) else subS l rest
+  | .ell rest => subS l rest
+  | .emb e rest => .emb (sub l e) (subS l rest)
+  | .own e rest => .own (sub l e) (subS l rest)
+  | .bot => .bot
+  | .sc _ => .bot
+  | .close e => .emb (sub l e) .top
+  | .defn e => .emb (.defn (sub l e)) .top
+  | .and a b => .emb (.and (sub l a) (sub l b)) .top
+end
 
 /-! ### data -/
 
@@ -255,6 +302,18 @@ def admitsN : Nat → Bool → Expr → Option Data → Bool
         else
           -- `l` is absent: fatal only if it is required; optional constraints are ignored
           !(full && hasDecl .required e l)
+
+/-- no definition reference occurs anywhere in `e` (`close()` may) -/
+def noDef : Expr → Bool
+  | .field _ _ v rest => noDef v && noDef rest
+  | .pat _ v rest => noDef v && noDef rest
+  | .ell rest => noDef rest
+  | .emb e rest => noDef e && noDef rest
+  | .own e rest => noDef e && noDef rest
+  | .close e => noDef e
+  | .defn _ => false
+  | .and a b => noDef a && noDef b
+  | _ => true
 
 /-- the spec's verdict on `schema & data` -/
 def admits (s : Expr) (d : Data) : Bool :=
